@@ -26,9 +26,4 @@ def finalDocs : List Note → List (Nat × Nat) :=
 def converged {D : Type} [BEq D] (notes : List Note) (diagOf : Nat → Nat → D) (log : Nat → List D) : Bool :=
   (finalDocs notes).all fun (u, t) => (log u).getLast? == some (diagOf u t)
 
-/-- Strictly increasing. -/
-def increasing : List Nat → Bool
-  | a :: b :: r => a < b && increasing (b :: r)
-  | _ => true
-
 end HL.Spec.Converge
